@@ -239,6 +239,9 @@ def shrink(mod, case, viol, budget_s=90):
         for cand in mod.shrink_candidates(cur):
             if time.time() - t0 > budget_s:
                 break
+            for mk in ('property', 'run_index', 'root_seed', 'tier'):
+                if mk in case:
+                    cand.setdefault(mk, case[mk])
             if _core_of(cand) == _core_of(cur):
                 continue
             tried += 1
@@ -267,9 +270,10 @@ def write_replay(mod, case, viol):
     case['violation'] = viol
     case['hashseed'] = os.environ.get('PYTHONHASHSEED')
     case['format'] = 1
-    name = '%s-s%s-%s-%s.json' % (mod.ID, case.get('root_seed', 0),
-                                 case.get('tier', 'x'),
-                                 case.get('run_index', 'x'))
+    name = '%s-s%s-%s-%s-%04x.json' % (mod.ID, case.get('root_seed', 0),
+                                      case.get('tier', 'x'),
+                                      case.get('run_index', 'x'),
+                                      h64(viol['key']) & 0xffff)
     path = os.path.join(d, name)
     with open(path, 'w') as f:
         json.dump(case, f, indent=1, sort_keys=True, default=repr)
